@@ -208,13 +208,47 @@ impl SemanticState {
             .with_context(|| format!("failed to get module for path `{parent_path}`"))?
             .definition_paths
             .insert(item_definition.path.clone());
+        #[cfg(feature = "verif")]
+        {
+            fn category_name(category: ItemCategory) -> &'static str {
+                match category {
+                    ItemCategory::Defined => "defined",
+                    ItemCategory::Predefined => "predefined",
+                    ItemCategory::Extern => "extern",
+                }
+            }
+            let previous = self.type_registry.get(&item_definition.path);
+            let event = crate::verif::Event::RegistryAdd {
+                path: item_definition.path.clone(),
+                category: category_name(item_definition.category),
+                resolved: item_definition.is_resolved(),
+                replaced: match previous {
+                    None => crate::verif::Replaced::None,
+                    Some(p) if p == &item_definition => crate::verif::Replaced::Same,
+                    Some(_) => crate::verif::Replaced::Different,
+                },
+                replaced_was_resolved: previous.is_some_and(|p| p.is_resolved()),
+                replaced_category: previous.map(|p| category_name(p.category)).unwrap_or(""),
+            };
+            crate::verif::emit(|| event);
+        }
         self.type_registry.add(item_definition);
         Ok(())
     }
 
     pub fn build(mut self) -> anyhow::Result<ResolvedSemanticState> {
+        #[cfg(feature = "verif")]
+        let mut verif_iteration = 0usize;
         loop {
             let to_resolve = self.type_registry.unresolved();
+            #[cfg(feature = "verif")]
+            {
+                verif_iteration += 1;
+                crate::verif::emit(|| crate::verif::Event::IterationStart {
+                    n: verif_iteration,
+                    worklist: to_resolve.clone(),
+                });
+            }
             if to_resolve.is_empty() {
                 break;
             }
@@ -241,6 +275,18 @@ impl SemanticState {
                     }
                 };
 
+                #[cfg(feature = "verif")]
+                crate::verif::emit(|| crate::verif::Event::Attempt {
+                    iteration: verif_iteration,
+                    path: resolvee_path.clone(),
+                    outcome: match &item {
+                        Some(i) => crate::verif::Outcome::Resolved {
+                            size: i.size,
+                            alignment: i.alignment,
+                        },
+                        None => crate::verif::Outcome::Deferred,
+                    },
+                });
                 let Some(item) = item else { continue };
                 self.type_registry.get_mut(resolvee_path).unwrap().state =
                     ItemState::Resolved(item);
@@ -262,7 +308,11 @@ impl SemanticState {
         for module in self.modules.values_mut() {
             module.resolve_extern_values(&mut self.type_registry)?;
         }
+        #[cfg(feature = "verif")]
+        crate::verif::emit(|| crate::verif::Event::ExternValuesResolved);
 
+        #[cfg(feature = "verif")]
+        crate::verif::emit(|| crate::verif::Event::BuildEnd { ok: true });
         Ok(ResolvedSemanticState {
             modules: self.modules,
             type_registry: self.type_registry,
